@@ -104,8 +104,8 @@ PROPS = {
                           "C18_int32_in_range", "C18_int32_accepts", "C18_int32_rejects", "C18_int64_accepts", "C18_f64_identity",
                           "C18_f32_rounds_never_to_infinity", "C18_f32_overflow_rejected"],
                 cone=["Model/Coerce.v", "Proofs/NumericP.v"],
-                rule="every (input representation, numeric schema kind) pair on boundary-directed inputs (+-2^31, +-2^63, 2^24/2^53 neighbours via nextafter, max float32 and successors, decimal/exponent strings, NaN/Inf) plus random bit patterns; the destination is compared bit-exactly with the model and, independently, with an exact big.Rat oracle; distinct = distinct (kind, input)",
-                families=[sat("numeric", "numeric", 2500, 40000, ["coerce", "numeric_oracle"])]),
+                rule="every (input representation, numeric schema kind) pair on boundary-directed inputs (+-2^31, +-2^63, 2^24/2^53 neighbours via nextafter, max float32 and successors, decimal/exponent strings, NaN/Inf) plus random bit patterns; the destination is compared bit-exactly with the model and, independently, with an exact big.Rat oracle; the same leaf placed as an element of a []any or of a typed Go slice, as a struct field and behind a pointer must be coerced identically; distinct = distinct (kind, input)",
+                families=[sat("numeric", "numeric", 2500, 40000, ["coerce", "numeric_oracle", "numeric_placement"])]),
     "C19": dict(theorems=["C19_default_never_changes", "C19_every_use_like_the_first", "C19_legacy_alias_refuted", "C19_validate_writes_only_through_default_catch_pt"],
                 cone=["Model/SliceHeap.v", "Proofs/PurityP.v"] + ENGINE_CONE,
                 rule="generated schemas rich in defaults (incl. slice-valued), catches and destination-mutating PostTransforms; inputs as []any and as typed []string / []int slices; reflect-based fingerprints (unexported fields, slice backing-array addresses) of the schema object graph and of the input before and after each execution; the returned destination is then overwritten everywhere and the fingerprints compared again; a second identical use is compared with the first; Validate on schemas without writers must leave the value as it was; every execution is also compared with the Coq engine; distinct = distinct (schema shape, issue codes, mode)",
